@@ -18,6 +18,7 @@ def main():
     ap.add_argument('pid')
     ap.add_argument('--tier', default=os.environ.get('VERIF_TIER') or 'quick', choices=['quick', 'thorough'])
     ap.add_argument('--replay')
+    ap.add_argument('--shard', action='store_true', help='with --replay: re-run the whole shard (history-dependent cases)')
     args = ap.parse_args()
     seed = int(os.environ.get('VERIF_SEED', '0') or 0)
 
@@ -35,7 +36,7 @@ def main():
     pid = args.pid.upper()
     mod = importlib.import_module('props.' + pid.lower())
     if args.replay:
-        sys.exit(core.do_replay(pid, mod, args.replay))
+        sys.exit(core.do_replay(pid, mod, args.replay, shard_mode=args.shard))
     sys.exit(core.run_property(pid, mod, args.tier, seed))
 
 
